@@ -49,7 +49,12 @@ func genConnPlan(t *rapid.T) *Plan {
 	n := rapid.IntRange(1, 7).Draw(t, "n_notif")
 	for i := 0; i < n && cur < p.Horizon; i++ {
 		kind := rapid.SampledFrom([]string{ActDisconnect, ActDisconnect, ActDisconnect, ActReconnect, ActReconnect, ActClosed}).Draw(t, "kind")
-		p.Timeline = append(p.Timeline, Action{At: cur, Kind: kind, Inst: 0})
+		a := Action{At: cur, Kind: kind, Inst: 0}
+		if rapid.IntRange(0, 3).Draw(t, "burst") == 0 {
+			// a flapping connection: the client's callback goroutine delivers several notifications back to back
+			a.Then = rapid.SliceOfN(rapid.SampledFrom([]string{ActDisconnect, ActReconnect}), 1, 3).Draw(t, "then")
+		}
+		p.Timeline = append(p.Timeline, a)
 		switch rapid.IntRange(0, 6).Draw(t, "gap") {
 		case 0:
 			cur += 2
@@ -74,7 +79,7 @@ func genConnPlan(t *rapid.T) *Plan {
 
 func TestC11(t *testing.T) {
 	RunCheck(t, CheckSpec{Prop: "C11",
-		Rule:        "a monitored leader (handlers read back from an unconnected *nats.Conn and invoked from one dispatcher goroutine per connection) plus 0-2 competitors; notification sequences from the grammar (disconnect|reconnect|closed)* with gaps {2ns, inside the 100ms stabilisation sleep, 100-400ms, grace-1ns, grace+1ns, up to 2 x grace}; grace in {default max(3H,5s), 2H, 2H+1ns, 5H}; combined with store faults/partitions, outside writes and deletes, priority takeover, stops at times and op phases; oracle: (1) no grace demotion before latest disconnect + grace, (2) a leader that got a disconnect, no further notification and no stop, and still leads, is down with OnDemote entered exactly at disconnect + grace, (3) after a reconnect the verification keeps a leader whose record carried its id and token throughout and demotes (with OnDemote) one whose record never did; no panic / deadlock (process level). Non-trivial = a disconnect delivered to a leader; distinct by plan hash.",
+		Rule:        "a monitored leader (handlers read back from an unconnected *nats.Conn and invoked from one dispatcher goroutine per connection) plus 0-2 competitors; notification sequences from the grammar (disconnect|reconnect|closed)* with gaps {0 = a burst of 2-4 notifications delivered back to back by the callback goroutine, 2ns, inside the 100ms stabilisation sleep, 100-400ms, grace-1ns, grace+1ns, up to 2 x grace}; grace in {default max(3H,5s), 2H, 2H+1ns, 5H}; combined with store faults/partitions, outside writes and deletes, priority takeover, stops at times and op phases; oracle: (1) no grace demotion before latest disconnect + grace, (2) a leader that got a disconnect, no further notification and no stop, and still leads, is down with OnDemote entered exactly at disconnect + grace, (3) after a reconnect the verification keeps a leader whose record carried its id and token throughout and demotes (with OnDemote) one whose record never did; no panic / deadlock (process level). Non-trivial = a disconnect delivered to a leader; distinct by plan hash.",
 		Gen:         genConnPlan,
 		Oracle:      OracleC11,
 		Assumptions: []string{"connection notifications are delivered sequentially per connection (one dispatcher goroutine), as nats.go does", "windows containing a 'closed' notification are not judged by clause (2): the statement only speaks about reconnects"}})
